@@ -2246,7 +2246,7 @@ class Side:
         buffer.write(
             f'{ind}\t"id" "{self.id}"\n'
             f'{ind}\t"plane" "({self.planes[0]}) ({self.planes[1]}) ({self.planes[2]})"\n'
-            f'{ind}\t"material" "{self.mat}"\n'
+            f'{ind}\t"material" "{escape_text(self.mat)}"\n'
             f'{ind}\t"uaxis" "{self.uaxis}"\n'
             f'{ind}\t"vaxis" "{self.vaxis}"\n'
             f'{ind}\t"rotation" "{self.ham_rot:g}\"\n'
@@ -2829,7 +2829,7 @@ class Entity(MutableMapping[str, str]):
 
             buffer.write(f'{ind}\t\t"visgroupshown" "{srctools.bool_as_int(self.vis_shown)}"\n')
             buffer.write(f'{ind}\t\t"visgroupautoshown" "{srctools.bool_as_int(self.vis_auto_shown)}"\n')
-            buffer.write(f'{ind}\t\t"logicalpos" "{self.logical_pos}"\n')
+            buffer.write(f'{ind}\t\t"logicalpos" "{escape_text(self.logical_pos)}"\n')
 
         if self.comments:
             buffer.write(f'{ind}\t\t"comments" "{escape_text(self.comments)}"\n')
